@@ -91,6 +91,21 @@ CHECKS = {
         "termination with some answer is assumed); the active-set guess is an untrusted hint; tolerances are the property's "
         "(2e-2 capture units / 1% of range default, 2e-3 / 1e-6 high accuracy); model tied to code by the per-run correspondence.",
         "5/C04"),
+    "C03": (
+        "Lean 4 proof (conv of the 2^n corner images = gamut, induction on the number of sources; certificate soundness) + exact per-target certificates",
+        "Theorems in lean/Dreye/Props/C03.lean prove for every number of sources and any ordered field: every box point is the "
+        "convex combination of the 2^n corners with product weights and every convex combination of corners lies in the box, "
+        "the affine model commutes with convex combinations, hence a target is a convex combination of the corner images "
+        "(what the code tests) iff some in-bound intensity vector reproduces it; a separating hyperplane for the corner images "
+        "refutes reproducibility; offset subtraction does not change membership. Every run builds targets WITH exact "
+        "certificates (product weights / supporting hyperplanes, verified in Q by the Lean checkers inHullCert and sepCert) for "
+        "all configurations (finite/infinite ub, lb>0, flat gamuts, dichromats, K incl. signed matrices, baseline, normalised "
+        "membership, membership after re-registration) and compares dreye's booleans with them.",
+        "Trusted: Lean kernel; qhull (Delaunay.find_simplex) and the NNLS solver are engines whose answers are compared with "
+        "verified certificates per target; near-boundary targets are placed at 1e-5 x extent (the property's margin is 1e-6); "
+        "vertices are recorded, not asserted; the chromatic (normalised) clause asserts only the inside direction; hooks record "
+        "the decision path.",
+        "5/C03"),
 }
 
 NOT_YET = "check not built yet in this round of work (planned in DESIGN.md section 5); no claim is made"
